@@ -13,7 +13,7 @@ if order == "rev":
     idx.reverse()
 out = {}
 for i in idx:
-    case = check.gen(core.rng_for(seed, cid, i), "quick")
+    case = runner.make_case(check, cid, seed, i, "quick")
     o = runner.run_one(check, case)
     out[str(i)] = [o.get("trace_hash"), sorted(runner.sig_key(v) for v in o["violations"])]
 print("HASHES " + json.dumps(out, sort_keys=True))
